@@ -2,8 +2,8 @@ package main
 
 func init() {
 	addPlan(&propertyPlan{ID: "C07",
-		Scenarios: []scenarioPlan{{Name: "c07_reader", Quick: 20000, Thorough: 1500000}},
-		Rule: "one run = one seeded execution (workload tape + schedule/fault tape) of a reader issuing 1-5 timed/untimed Reader calls against a chunking, pausing, closing peer; non-trivial = at least one call had to wait (fewer bytes buffered than needed at invocation); distinct = distinct hash of the step trace (task, netpoll call site per step, clock jumps)",
+		Scenarios: []scenarioPlan{{Name: "c07_reader", Quick: 60000, Thorough: 3000000}},
+		Rule: "one run = one seeded execution (workload tape + schedule/fault tape) of a reader issuing 1-5 timed/untimed Reader calls (Until lines are exactly the call's 1-5000 bytes long) against a chunking, pausing, closing peer; non-trivial = at least one call had to wait (fewer bytes buffered than needed at invocation); distinct = distinct hash of the step trace (task, netpoll call site per step, clock jumps)",
 		Assume: []string{"single reader per connection (documented contract)", "simulator yields at atomics, syscalls, channel/mutex operations, spawns; weak-memory reorderings are not modelled", "AF_UNIX stream sockets only"},
 		Real:   commonReal, Stub: commonStub})
 
@@ -31,7 +31,7 @@ func init() {
 		Real:   []string{"nocopy_readwriter.go, nocopy_linkbuffer.go, nocopy.go (rewritten copy of the current /repo working tree)"},
 		Stub:   []string{"the wrapped io.Reader / io.Writer (scripted from the tape)", "mcache/dirtmake allocator (valloc)"}})
 
-	lifeRule := "one run = one seeded execution of a real server (listener, accept path, 1-2 pollers) with one accepted connection: configuration (which callbacks, how many close callbacks, OnConnect behaviour, per-invocation handler script consume/gate/echo/close/panic), a raw peer that writes a chunked stream with pauses and then stays/closes/half-closes/resets, 0-3 user closers (one may Detach), optional Shutdown; non-trivial = a connection was accepted and the peer wrote, closed or a user closer acted; distinct = distinct hash of the step trace"
+	lifeRule := "one run = one seeded execution of a real server (listener, accept path, 1-2 pollers) with one accepted connection: configuration (which callbacks, how many close callbacks, OnConnect behaviour, per-invocation handler script consume/gate/echo/close/panic and, for C06, a blocking read whose deadline has already passed), a raw peer that writes a chunked stream with pauses and then stays/closes/half-closes/resets, 0-3 user closers (one may Detach), optional Shutdown; non-trivial = a connection was accepted and the peer wrote, closed or a user closer acted; distinct = distinct hash of the step trace"
 	lifeAssume := []string{"the handler consumes at least one byte per invocation or closes the connection (documented OnRequest contract)", "one reader (the handler) per connection", "AF_UNIX stream sockets on the real kernel", "yields at atomics, syscalls, channel/mutex operations, spawns"}
 	addPlan(&propertyPlan{ID: "C05", Scenarios: []scenarioPlan{{Name: "c05_teardown", Quick: 40000, Thorough: 2500000}, {Name: "c06_handler", Quick: 5000, Thorough: 250000}, {Name: "c09_callbacks", Quick: 5000, Thorough: 250000}, {Name: "c05_prepare", Quick: 8000, Thorough: 300000}}, Rule: lifeRule + "; c05_prepare: a server whose OnPrepare registers 1-3 close callbacks and then closes the connection itself, or whose registration with the poller fails (epoll_ctl ADD error), or neither, for 1-4 clients one after the other: every close callback exactly once, the descriptor closed, IsActive false, Shutdown returns", Assume: lifeAssume, Real: commonReal, Stub: commonStub})
 	addPlan(&propertyPlan{ID: "C06", Scenarios: []scenarioPlan{{Name: "c06_handler", Quick: 40000, Thorough: 2500000}, {Name: "c05_teardown", Quick: 5000, Thorough: 250000}, {Name: "c09_callbacks", Quick: 5000, Thorough: 250000}, {Name: "c06_late", Quick: 10000, Thorough: 500000}}, Rule: lifeRule + "; c06_late: a client connection (FD or dialled) without request handler whose peer sends 1-3 chunks and stays or closes, SetOnRequest called at a seeded moment (at once, after a pause, once all input is buffered, once the peer has hung up), a handler that takes 1, 4 or all bytes per call: every byte offered, serially, before the close callbacks run", Assume: lifeAssume, Real: commonReal, Stub: commonStub})
@@ -39,12 +39,12 @@ func init() {
 
 	addPlan(&propertyPlan{ID: "C08",
 		Scenarios: []scenarioPlan{{Name: "c08_flush", Quick: 30000, Thorough: 2000000}},
-		Rule: "one run = one seeded execution of a writer issuing 1-4 Write/Flush calls (1 byte .. 10x the socket buffer, with no/relative/absolute write timeout) on a connection built one of three ways over a socket pair with 4-16 KB buffers, a peer that drains promptly/slowly/not at all/closes, an optional second concurrent Flush caller and an optional local closer, under kernel short writes, EAGAIN and epoll faults; when a call ended in ErrWriteTimeout and everything has come to rest (peer drained, poller idle) a further Flush of 2 KB-100 KB is issued and judged like any other; non-trivial = more than half a socket buffer was submitted; distinct = distinct step-trace hash",
+		Rule: "one run = one seeded execution of a writer issuing 1-4 Write/Flush calls (1 byte .. 10x the socket buffer, one payload in four handed over as 33-80 appended buffers, with no/relative/absolute write timeout) on a connection built one of three ways over a socket pair with 4-16 KB buffers, a peer that drains promptly/slowly/not at all/closes, an optional second concurrent Flush caller and an optional local closer, under kernel short writes, EAGAIN and epoll faults; when a call ended in ErrWriteTimeout and everything has come to rest (peer drained, poller idle) a further Flush of 2 KB-100 KB is issued and judged like any other; non-trivial = more than half a socket buffer was submitted; distinct = distinct step-trace hash",
 		Assume: []string{"one writer per connection; the second goroutine only calls Flush", "after ErrWriteTimeout the writer submits again only once the poller is idle (an immediate retry shares the unsent tail with a poller that may still be sending it: duplicated bytes and a poller crash in the unchanged code, outside the given properties - DESIGN.md 6.5)", "AF_UNIX stream sockets on the real kernel"},
 		Real:   commonReal, Stub: commonStub})
 	addPlan(&propertyPlan{ID: "C04",
 		Scenarios: []scenarioPlan{{Name: "c04_stream", Quick: 20000, Thorough: 1000000}, {Name: "c08_flush", Quick: 5000, Thorough: 200000}, {Name: "c06_handler", Quick: 5000, Thorough: 200000}},
-		Rule: "one run = two real netpoll connections over one socket pair (default, 4 KB or 16 KB buffers); the sender submits 1..70000 bytes of a position-keyed stream through a seeded mix of Write / Malloc / WriteBinary / WriteString / WriteByte / WriteDirect / Append + Flush in seeded chunkings and then closes or not; the receiver is a reader task with a seeded mix and pace of Next/Peek+Skip/ReadBinary/ReadString/ReadByte/Slice/Read/Skip/Release or an OnRequest handler; kernel short writes/reads, send EAGAIN, epoll batch clipping and EINTR; non-trivial = more than 300 bytes; distinct = distinct step-trace hash",
+		Rule: "one run = two real netpoll connections over one socket pair (default, 4 KB or 16 KB buffers); the sender submits 1..70000 bytes of a position-keyed stream through a seeded mix of Write / Malloc / WriteBinary / WriteString / WriteByte / WriteDirect / Append (also of buffers their producer has flushed, and one frame in eight handed over as 33-80 appended buffers) + Flush in seeded chunkings and then closes or not; the receiver is a reader task with a seeded mix and pace of Next/Peek+Skip/ReadBinary/ReadString/ReadByte/Slice/Read/Skip/Release or an OnRequest handler; kernel short writes/reads, send EAGAIN, read EAGAIN after reported readiness, epoll batch clipping and EINTR; non-trivial = more than 300 bytes; distinct = distinct step-trace hash",
 		Assume: []string{"one reader and one writer per connection", "AF_UNIX stream sockets on the real kernel (TCP not covered)", "the guarantee is checked up to the first reported write error"},
 		Real:   commonReal, Stub: commonStub})
 
